@@ -163,6 +163,9 @@ class BatchPipelineRunner:
             # release our reference, will sometimes free the pipeline memory in this process
             del pipeline
             results = BatchResults(key_type)
+            for inv in self.invocations:
+                for oname in inv.components.values():
+                    results.ensure_output(oname)
             timer = Stopwatch()
             for key, outs in worker.map(test_iter):
                 for cn, cr in outs.items():
@@ -170,7 +173,7 @@ class BatchPipelineRunner:
                 progress.update()
             timer.stop()
 
-            rate = timer.elapsed() / n_users
+            rate = timer.elapsed() / n_users if n_users else 0.0
             log.info("finished running in %s (%.1fms/user)", timer, rate)
 
         return results
